@@ -87,3 +87,19 @@ Lemma sent_date_as_written :
   /\ search_line [KNot (KDate true COn (d2024 "2"))] zone_mb = ROk [1; 2]
   /\ search_line [KOr (KDate true CBefore (d2024 "2")) (KDate true CSince (d2024 "3"))] zone_mb = ROk [1; 2].
 Proof. vm_compute. repeat split; reflexivity. Qed.
+
+(** regression (seeded change C19-2): a copied message is listed once per copy,
+    with the same text and possibly byte-identical flags; every entry is judged on
+    its own sequence number, UID and internal date (c19_search_exact quantifies
+    over such mailboxes as over any other) *)
+Definition copy_mb : list smsg :=
+  [ mk_smsg 1 [S_ "\Recent"] wit_m2 (2026, 10, 1); mk_smsg 2 [S_ "\Recent"] wit_m2 (2026, 10, 2); mk_smsg 3 [S_ "\Recent"] wit_m3 (2026, 10, 2) ].
+Definition one_ (d : string) : key := KSeq [SOne (SNum (S_ d))].
+Lemma copied_entries_on_their_own :
+  classify_line [KOr (one_ "2") (KHdr HFrom (S_ "carol"))] copy_mb = None
+  /\ search_line [one_ "1"] copy_mb = ROk [1] /\ search_line [one_ "2"] copy_mb = ROk [2]
+  /\ search_line [KNot (one_ "1")] copy_mb = ROk [2; 3]
+  /\ search_line [KOr (one_ "2") (KHdr HFrom (S_ "carol"))] copy_mb = ROk [2; 3]
+  /\ search_line [KUid [SRange (SNum (S_ "2")) (SNum (S_ "3"))]] copy_mb = ROk [2; 3]
+  /\ search_line [KDate false COn (S_ "1", 10, S_ "2026")] copy_mb = ROk [1].
+Proof. vm_compute. repeat split; reflexivity. Qed.
